@@ -14,8 +14,67 @@ def hh(e, salt):
     return int(hashlib.md5((salt + json.dumps(e, sort_keys=True)).encode()).hexdigest()[:8], 16)
 
 
+def guards_table(v, only=None):
+    """module Guards: binary entry points on unevaluated expressions, matrix shapes, weighted rotation (ASan build)"""
+    r = vlib.tlc("Guards", "Guards.cfg", timeout=600, coverage=False)
+    vlib.tlc_ok(r, "Guards")
+    cases = [e for e in r.edges if e.get("entry") != "none"]
+    if only is not None:
+        cases = [e for e in cases if all(e[k] == only[k] for k in ("entry", "k1", "k2", "d1", "d2", "r", "cc"))]
+    if len(cases) < (4000 if only is None else 1):
+        raise Infra("Guards exported only %d cases" % len(cases))
+    exe = vlib.build_harness("guard_replay", "asan", extra_flags=["-std=c++14"])
+    lines = ["%d %s %s %s %d %d %d %d %d" % (i, e["entry"], e["k1"], e["k2"], e["d1"], e["d2"], e["r"], e["cc"], 1 if e["must"] else 0) for i, e in enumerate(cases)]
+    done_upto = 0
+    nfail = 0
+    guard = 0
+    while done_upto < len(lines) and guard < 30:
+        guard += 1
+        rc, out, err = vlib.run_lines(exe, "\n".join(lines[done_upto:]) + "\n", timeout=900, env={"ASAN_OPTIONS": "detect_leaks=0:abort_on_error=0"})
+        fails = [l.split() for l in out if l.startswith("FAIL")]
+        for f in fails:
+            e = cases[int(f[1])]
+            shape = ("d=%d/U=%dx%d" % (e["d1"], e["r"], e["cc"])) if e["r"] else "d1=%d/d2=%d" % (e["d1"], e["d2"])
+            v.violation("guard/%s/%s%s/%s" % (e["entry"], (e["k1"] + "," + e["k2"] + "/") if e["k1"] != "-" else "", shape, f[2]),
+                        "%s with expression kinds (%s,%s), %s: %s (the specification says must-raise=%s)" % (e["entry"], e["k1"], e["k2"], shape, f[2], e["must"]), {"guard_case": e})
+            nfail += 1
+        if any(l.startswith("BADINPUT") for l in out):
+            raise Infra("guard_replay rejected its input: %s" % [l for l in out if l.startswith("BADINPUT")][:2])
+        if any(l.startswith("DONE") for l in out):
+            done_upto = len(lines)
+            break
+        # the replayer died (sanitizer report or signal) inside some case; finished cases leave no line unless they failed,
+        # so the offending case is located by bisection on the remaining input
+        lo, hi = done_upto, len(lines)
+        while hi - lo > 1:
+            mid = (lo + hi) // 2
+            rc2, out2, err2 = vlib.run_lines(exe, "\n".join(lines[lo:mid]) + "\n", timeout=900, env={"ASAN_OPTIONS": "detect_leaks=0:abort_on_error=0"})
+            if any(l.startswith("DONE") for l in out2):
+                lo = mid
+            else:
+                hi = mid
+        e = cases[lo]
+        shape = ("d=%d/U=%dx%d" % (e["d1"], e["r"], e["cc"])) if e["r"] else "d1=%d/d2=%d" % (e["d1"], e["d2"])
+        first = [l for l in err.splitlines() if "ERROR: AddressSanitizer" in l or "runtime error" in l][:1]
+        v.violation("guard/%s/%s%s/memory" % (e["entry"], (e["k1"] + "," + e["k2"] + "/") if e["k1"] != "-" else "", shape),
+                    "%s with expression kinds (%s,%s), %s: the call died (rc=%s) %s" % (e["entry"], e["k1"], e["k2"], shape, rc, first), {"guard_case": e, "stderr": err[-1500:]})
+        nfail += 1
+        done_upto = lo + 1
+    v.add("states", r.distinct); v.add("transitions", r.generated); v.add("traces_validated_against_impl", len(cases))
+    v.cov["guard_table_cases"] = {"cases": len(cases), "must_raise": sum(1 for e in cases if e["must"]), "entries": sorted(set(e["entry"] for e in cases))}
+
+
 def run(v, tier, seed, replay):
     if replay:
+        import json as _j
+        with open(replay) as f:
+            data = _j.load(f)
+        gc = [(x.get("replay") or {}).get("guard_case") for x in data.get("violations", [])]
+        gc = [g for g in gc if g]
+        if gc:
+            for g in gc[:20]:
+                guards_table(v, only=g)
+            return "model_checking"
         return suvec.replay(v, replay, "asan")
     cfg = suvec.bfs_cfg("C14_guard", vecs=3, dims=(2, 3), exts=(1, 2), maxops=2, ops=("add", "sub", "neg", "elementwise"), next_op="SpecGuard",
                         props=("WriteFrame", "ExternalStable", "FailureFrame"))
@@ -67,6 +126,7 @@ def run(v, tier, seed, replay):
     suvec.report_rejections(v, rej)
     v.add("traces_validated_against_impl", a)
     v.add("events_validated", m)
+    guards_table(v)
     for s in allsegs[:2]:
         v.sample({"calls": [{k: x for k, x in json.loads(y).items() if k in ("e", "t", "a", "b", "op", "w", "d", "c", "out")} for y in s]})
     v.cov["exhaustive"] = True
